@@ -160,6 +160,13 @@ class _FakeFcntl:
             return 0
         finally:
             fire_resize(2)  # right after the ioctl
+            pz = PAUSE[0]
+            if pz is not None and threading.current_thread() is pz["thread"]:
+                pz["reached"].set()
+                pz["go"].wait(20)
+
+
+PAUSE = [None]  # {thread, reached, go}: park that thread's lookup right after its ioctl
 
 
 ARMED = [None]  # (point, window): a resize that arrives DURING the running lookup, at that hook point
@@ -243,6 +250,32 @@ def _gcs_wrapper():
 
 utils.get_cell_size = _gcs_wrapper
 term_image.get_cell_size = _gcs_wrapper
+import term_image.image.common as _common  # noqa: E402
+
+_common.get_cell_size = _gcs_wrapper  # the graphics-image consumers look the name up here
+
+_IMG = [None]
+
+
+def graphics_image():
+    """a KittyImage instance (built once, without a support check) whose rendered size is forced per use"""
+    if _IMG[0] is None:
+        from PIL import Image
+
+        saved = KittyImage.__dict__.get("_supported", None)
+        KittyImage._supported = True
+        try:
+            _IMG[0] = KittyImage(Image.new("RGB", (4, 4)))
+        finally:
+            KittyImage._supported = saved
+    return _IMG[0]
+
+
+def use_val(kind, n, c):
+    """what the consumer gives for cell size c (Model.useVal)"""
+    w, h = c
+    return {"cp": "n%d" % (n * w), "lp": "n%d" % (n * h), "pc": "n%d" % (n // w), "pl": "n%d" % (n // h),
+            "rs": "size %d %d" % (n * w, n * h)}[kind]
 
 _probe_total = [0]
 
@@ -362,6 +395,8 @@ def op_token(op) -> str:
         return "acr " + ("none" if op[1] is None else "some %d" % int(op[1]))
     if k in ("gco", "pr"):
         return f"{k} {op[1]}"
+    if k == "use":
+        return f"use {op[1]} {op[2]}"
     return k
 
 
@@ -403,6 +438,19 @@ def do_op(op):
         if k == "gcs":
             r = utils.get_cell_size()
             return "none" if r is None else "size %d %d" % tuple(r)
+        if k == "use":
+            kind, n = op[1], op[2]
+            if kind == "cp":
+                return "n%d" % KittyImage._pixels_cols(cols=n)
+            if kind == "lp":
+                return "n%d" % KittyImage._pixels_lines(lines=n)
+            if kind == "pc":
+                return "n%d" % KittyImage._pixels_cols(pixels=n)
+            if kind == "pl":
+                return "n%d" % KittyImage._pixels_lines(pixels=n)
+            img = graphics_image()
+            img._size = (n, n)
+            return "size %d %d" % tuple(img._get_render_size())
         if k == "gcsr":
             ARMED[0] = (op[1], tuple(op[2]))
             try:
@@ -551,6 +599,17 @@ def check_history(d, recs, fresh=None):
                 fails.append(Failure(f"stale/get_cell_size/after-{cause}",
                                      f"op {i}: get_cell_size() = {val}, a fresh computation gives {sorted(want)} "
                                      f"(window {win}, swap={swap}, queries={q})"))
+        if proviso and k == "use":
+            def cell(v):
+                return tuple(map(int, v.split()[1:])) if v.startswith("size ") else (1, 2)
+            want = {use_val(op[1], op[2], cell(fr(win, swap, q)["gcs"]))} | \
+                ({use_val(op[1], op[2], cell(fr(win, swap, True)["gcs"]))} if not q else set())
+            name = {"cp": "_pixels_cols", "pc": "_pixels_cols", "lp": "_pixels_lines", "pl": "_pixels_lines",
+                    "rs": "_get_render_size"}[op[1]]
+            if val not in want:
+                fails.append(Failure(f"stale/GraphicsImage.{name}/after-{cause}",
+                                     f"op {i}: GraphicsImage.{name}({op[1]}, {op[2]}) = {val}, with a fresh cell size it is "
+                                     f"{sorted(want)} (window {win}, swap={swap}, queries={q})"))
         if proviso and k == "gcr" and b["ratio"] is None:
             want = {ratio_of_cell(fr(win, swap, q)["gcs"])} | ({ratio_of_cell(fr(win, swap, True)["gcs"])} if not q else set())
             if val not in want:
@@ -865,6 +924,8 @@ def gen_win(rng, px_mode, cells=None):
 GETS = [("gcs",), ("gcs",), ("gcr",), ("gco", "0"), ("gco", "F"), ("gco", "T"), ("gnv",), ("iok",), ("ksup",),
         ("isup",), ("tsc",), ("pr", 0), ("pr", 1), ("pr", 2)]
 TOGGLES = [("swon",), ("swoff",), ("qon",), ("qoff",)]
+USES = [("use", "cp", 3), ("use", "lp", 2), ("use", "pc", 100), ("use", "pl", 100), ("use", "rs", 3), ("use", "rs", 1)]
+GETS += USES[:3]
 
 
 def gen_history(rng):
@@ -906,7 +967,7 @@ def gen_history(rng):
         ops += [rng.choice(TOGGLES)]
         if rng.random() < 0.5:
             ops += [("rs", win_for(win[:2], fresh_px=True))]
-        ops += [("gcs",), ("gcr",), rng.choice(TOGGLES), ("gcs",)]
+        ops += [rng.choice([("gcs",)] + USES), ("gcr",), rng.choice(TOGGLES), rng.choice([("gcs",)] + USES)]
     elif shape == "toggle-coincident":
         # read; [toggle that will be undone]; pixel size changes at unchanged cols/rows with NO read in
         # between; an effective toggle; read again (cell size, DYNAMIC ratio, FIXED snapshot)
@@ -925,7 +986,9 @@ def gen_history(rng):
             if rng.random() < 0.3:
                 ops += [rng.choice([("gnv",), ("gco", "0"), ("pr", 0), ("iok",)])]  # reads of other facts are fine
         ops += [{"q": ("qon",), "swon": ("swon",), "swoff": ("swoff",)}[tog]]
-        ops += [rng.choice([("gcs",), ("gcr",), ("sr", "dynamic"), ("sr", "fixed")]), ("gcs",), ("gcr",)]
+        ops += [rng.choice([("gcs",), ("gcr",), ("sr", "dynamic"), ("sr", "fixed")] + USES), ("gcs",), ("gcr",)]
+        if rng.random() < 0.4:  # the first read is a consumer (a graphics image size computation)
+            ops[0] = rng.choice(USES)
     elif shape == "resize-in-lookup":
         # a resize (cells and pixels) arrives DURING a lookup, at one of the hook points of the tty layer;
         # afterwards the terminal is quiet and the cell size / DYNAMIC ratio are read again
@@ -1022,6 +1085,44 @@ def _consts(code):
         if hasattr(c, "co_consts"):
             out += _consts(c)
     return out
+
+
+MEMO_DECORATORS = ("cached", "terminal_size_cached", "lru_cache", "cache", "cached_property")
+
+
+def memoized_functions():
+    """closed world: every use of a memoizing decorator in the package (AST scan of all its modules), as
+    `module:qualname:decorator`; also `name = decorator(f)` forms"""
+    import ast
+    import pathlib
+
+    root = pathlib.Path(term_image.__file__).parent
+    found = []
+    for path in sorted(root.rglob("*.py")):
+        mod = ".".join(("term_image",) + path.relative_to(root).with_suffix("").parts).removesuffix(".__init__")
+        tree = ast.parse(path.read_text())
+
+        def dname(d):
+            d = d.func if isinstance(d, ast.Call) else d
+            return d.attr if isinstance(d, ast.Attribute) else d.id if isinstance(d, ast.Name) else ""
+
+        def walk(node, prefix):
+            for ch in ast.iter_child_nodes(node):
+                if isinstance(ch, (ast.FunctionDef, ast.AsyncFunctionDef, ast.ClassDef)):
+                    q = prefix + ch.name
+                    for d in ch.decorator_list:
+                        if dname(d) in MEMO_DECORATORS:
+                            found.append(f"{mod}:{q}:{dname(d)}")
+                    walk(ch, q + ".")
+                else:
+                    if isinstance(ch, ast.Assign) and isinstance(ch.value, ast.Call) and dname(ch.value) in MEMO_DECORATORS \
+                            and not (mod == "term_image.utils" and prefix.startswith(MEMO_DECORATORS)):
+                        tg = ch.targets[0]
+                        found.append(f"{mod}:{prefix}{ast.unparse(tg)}:{dname(ch.value)}")
+                    walk(ch, prefix)
+
+        walk(tree, "")
+    return sorted(found)
 
 
 def store_key_is_first_read():
@@ -1202,6 +1303,132 @@ def race_failures(name):
     return out
 
 
+class SigLock:
+    """a re-entrant lock that tells when a thread has to wait for it (stands in for `utils._tty_lock` /
+    `_cell_size_lock` *and* `utils._rlock_type` during the hand-over scenario)"""
+
+    waiting = None  # threading.Event shared by the scenario
+
+    def __init__(self):
+        self._l = threading.RLock()
+
+    def acquire(self, blocking=True, timeout=-1):
+        if self._l.acquire(False):
+            return True
+        if not blocking:
+            return False
+        SigLock.waiting.set()
+        return self._l.acquire(True, timeout)
+
+    def release(self):
+        self._l.release()
+
+    __enter__ = acquire
+
+    def __exit__(self, *a):
+        self._l.release()
+
+
+def handover_scenario(toggle):
+    """Three threads at the FIRST Process.start(): L is inside a cell-size lookup (parked right after its
+    ioctl), P starts a process, T toggles (`toggle`) together with a pixel-size change; P and T run as far as
+    they can, then L finishes.  Afterwards get_cell_size() must equal a fresh computation.  Deterministic:
+    the controller waits for 'done' or 'has to wait for a lock', never for a time-out."""
+    reset_all()
+    term = dict(RACE_TERM)
+    w1 = (100, 40, 1000, 800, 10, 20, 1000, 800)
+    w2 = (100, 40, 1200, 1000, 12, 25, 1200, 1000)  # same cells, other pixels: coincides with the toggle
+    vt.reset(term, (80, 24, 800, 480, 10, 20, 800, 480))
+    saved_type = utils._rlock_type
+    SigLock.waiting = threading.Event()
+    utils._rlock_type = SigLock
+    utils._tty_lock, utils._cell_size_lock = SigLock(), SigLock()
+    try:
+        do_op(("gcs",))
+        vt.win = w1  # a resize in cells: the lookup of L misses
+        res = {}
+
+        def run(name, f):
+            def body():
+                try:
+                    res[name] = f()
+                except Exception as e:  # pragma: no cover
+                    res[name] = "err:" + type(e).__name__
+                ev[name].set()
+            return threading.Thread(target=body, daemon=True)
+
+        ev = {n: threading.Event() for n in "LPT"}
+        L = run("L", lambda: do_op(("gcs",)))
+        PAUSE[0] = dict(thread=L, reached=threading.Event(), go=threading.Event())
+        L.start()
+        if not PAUSE[0]["reached"].wait(20):
+            raise RuntimeError("L never reached its ioctl")
+
+        def until_done_or_waiting(name):
+            for _ in range(4000):
+                if ev[name].is_set() or SigLock.waiting.is_set():
+                    return
+                ev[name].wait(0.005)
+            raise RuntimeError(f"{name} neither finished nor blocked")
+
+        P = run("P", start_process)
+        P.start()
+        until_done_or_waiting("P")
+        p_blocked = not ev["P"].is_set()
+        SigLock.waiting.clear()
+
+        def tog():
+            vt.win = w2
+            getattr(term_image, TOGGLE_FNS[toggle])()
+
+        if toggle == "qon":
+            utils._queries_enabled = False
+        T = run("T", tog)
+        T.start()
+        until_done_or_waiting("T")
+        t_blocked = not ev["T"].is_set()
+        PAUSE[0]["go"].set()
+        for n in "LPT":
+            if not ev[n].wait(20):
+                raise RuntimeError(f"thread {n} never finished")
+        PAUSE[0] = None
+        final = do_op(("gcs",))
+        swap, q = utils._swap_win_size, utils._queries_enabled
+    finally:
+        PAUSE[0] = None
+        utils._rlock_type = saved_type
+        reset_all()
+    want = fresh_table(term, w2, swap, q)["gcs"]
+    if final != want:
+        return Failure(f"handover_race/{TOGGLE_FNS[toggle]}",
+                       f"first Process.start() while a lookup is in flight (P {'waited' if p_blocked else 'did not wait'} for "
+                       f"the lookup, {TOGGLE_FNS[toggle]}() {'waited' if t_blocked else 'did not wait'}): afterwards "
+                       f"get_cell_size() = {final}, a fresh computation gives {want} (window {w2}, swap={swap})")
+    return None
+
+
+def handover_under_cell_lock():
+    """AST of _process_start_wrapper: is `_cell_size_cache` rebound inside a `with _cell_size_lock:` block?"""
+    import ast
+    import inspect
+    import textwrap
+
+    fn = ast.parse(textwrap.dedent(inspect.getsource(utils._process_start_wrapper))).body[0]
+    ok = []
+
+    def walk(node, locked):
+        for ch in ast.iter_child_nodes(node):
+            l2 = locked or (isinstance(ch, ast.With) and any(
+                ast.unparse(i.context_expr).endswith("_cell_size_lock") for i in ch.items))
+            if isinstance(ch, ast.Assign) and any("_cell_size_cache" in ast.unparse(t) for t in ch.targets) \
+                    and isinstance(ch.value, ast.Call):
+                ok.append(locked)
+            walk(ch, l2)
+
+    walk(fn, False)
+    return bool(ok) and all(ok)
+
+
 class C15(Property):
     id = "C15"
     title = "Cached terminal facts never outlive the condition they were computed under"
@@ -1296,6 +1523,8 @@ class C15(Property):
             f"def initAcr : Option Bool := {lopt(eval(acr0[0].split('=')[1]) if acr0 else 'missing')}\n"
             f"def initSupported : Option Bool := {lopt(sup0)}\n"
             f"def storeKeyIsFirstRead : Bool := {lb(store_key_is_first_read())}\n"
+            f"def handoverUnderCellLock : Bool := {lb(handover_under_cell_lock())}\n"
+            f"def memoized : List String := [{', '.join(chr(34) + m + chr(34) for m in memoized_functions())}]\n"
             f"def swapOnSteps : List Nat := {toggle_steps(ti.enable_win_size_swap)}\n"
             f"def swapOffSteps : List Nat := {toggle_steps(ti.disable_win_size_swap)}\n"
             f"def qOnSteps : List Nat := {toggle_steps(ti.enable_queries)}\n"
@@ -1312,6 +1541,8 @@ class C15(Property):
             for k in range(5):
                 line = "race %d some %d %d %s %d" % (n, 1 - n, len(steps), " ".join(map(str, steps)), k)
                 yield Case(" ".join(line.split()), dict(toggle=name, k=k), "race", True)
+        for tg in ("swon", "qon"):
+            yield Case(f"handover {tg}", dict(toggle=tg), "handover", True)
         while True:
             r = rng.random()
             if r < 0.08:
@@ -1352,6 +1583,10 @@ class C15(Property):
             return res
         if op == "divbits":
             return "ok " + f64hex(case.data["a"] / case.data["b"])
+        if op == "handover":
+            f = handover_scenario(case.data["toggle"])
+            self.side[case.line] = f
+            return "ok stale" if f else "ok fresh"
         if op == "race":
             pts = [p for p in race_explore(case.data["toggle"]) if p["k"] == case.data["k"]]
             if not pts:
@@ -1376,6 +1611,8 @@ class C15(Property):
                         g.case = case
                         self.more.append(g)
                 return f
+        if op == "handover":
+            return self.side.pop(case.line, None) if case.line in self.side else handover_scenario(case.data["toggle"])
         if op == "race" and case.data["k"] == 0:
             f = race_failures(case.data["toggle"])
             if f:
@@ -1415,6 +1652,22 @@ class C15(Property):
                 n = int(name != "swoff")
                 f.case = Case("race %d some %d %d %s 0" % (n, 1 - n, len(steps), " ".join(map(str, steps))), dict(toggle=name, k=0))
                 out.append(f)
+        if out:
+            return out
+        # targeted: the consumers of the cached facts (graphics image size conversions) after every toggle
+        cterm = gen_term(random.Random(7), "kitty")
+        cterm.update(ioctlFail=False, ansCell=True, ansArea=True, termux=False, da1=True)
+        for w0 in ((80, 30, 800, 660, 10, 22, 800, 660), (80, 30, 0, 0, 10, 22, 800, 660)):
+            for togs in ([("swon",)], [("swon",), ("use", "cp", 3), ("swoff",)], [("qoff",), ("use", "lp", 2), ("qon",)],
+                         [("qoff",), ("rs", (80, 30, 720, 540, 9, 18, 720, 540)), ("qon",)]):
+                for u in USES:
+                    ops = [u] + togs + [u, ("gcs",)]
+                    d = dict(term=cterm, win=w0, ops=ops)
+                    for f in check_history(d, run_history(d)):
+                        if f.key not in seen:
+                            seen.add(f.key)
+                            f.case = Case(history_line(d), dict(term=cterm, win=list(w0), ops=[list(o) for o in ops]))
+                            out.append(f)
         if out:
             return out
         # targeted: a resize in cells and pixels arriving during a lookup, at every hook point, both paths
